@@ -28,6 +28,11 @@ def main():
     if "--tier" in args:
         tier = args[args.index("--tier") + 1]
         del args[args.index("--tier"):args.index("--tier") + 2]
+    shard = None
+    if "--shard" in args:
+        i, n = args[args.index("--shard") + 1].split("/")
+        shard = (int(i), int(n))
+        del args[args.index("--shard"):args.index("--shard") + 2]
     pids = [a for a in args if not a.startswith("-")]
     if not pids:
         pids = sorted(os.path.basename(d) for d in glob.glob(os.path.join(VERIF, "selftest", "C*")) if os.path.isdir(d))
@@ -39,9 +44,13 @@ def main():
         return 2
     results = {}
     bad = 0
+    counter = 0
     try:
         for pid in pids:
             for patch in sorted(glob.glob(os.path.join(VERIF, "selftest", pid, "*.patch"))):
+                counter += 1
+                if shard and counter % shard[1] != shard[0]:
+                    continue
                 name = os.path.basename(patch)
                 sh(["git", "-C", wt, "checkout", "-q", "--", "."])
                 sh(["git", "-C", wt, "clean", "-fdq"])
@@ -75,7 +84,7 @@ def main():
         sh(["git", "-C", "/repo", "worktree", "remove", "--force", wt])
         sh(["git", "-C", "/repo", "worktree", "prune"])
         sh(["rm", "-rf", tmp])
-    outp = os.path.join(VERIF, "selftest", "results.json")
+    outp = os.path.join(VERIF, "selftest", "results.json" if not shard else f"results.shard{shard[0]}.json")
     old = {}
     if os.path.exists(outp):
         try:
